@@ -93,6 +93,7 @@ class SurfDB:
     def __init__(self):
         self.masters = {}      # site type name (e.g. Hfo_w) -> master species name (Hfo_wOH)
         self.species = {}      # name -> SurfSpecies (later definitions replace earlier ones, as in PHREEQC)
+        self.sol_masters = {}  # SOLUTION_MASTER_SPECIES: element or element(valence) -> master species as written
 
     def read(self, text):
         block = None
@@ -107,6 +108,9 @@ class SurfDB:
             if block == "SURFACE_MASTER_SPECIES":
                 if len(toks) >= 2:
                     self.masters[toks[0]] = toks[1]
+            elif block == "SOLUTION_MASTER_SPECIES":
+                if len(toks) >= 2:
+                    self.sol_masters[toks[0]] = toks[1]
             elif block == "SURFACE_SPECIES":
                 if "=" in toks:
                     i = toks.index("=")
@@ -174,6 +178,18 @@ class SurfDB:
         if sp is None or sp.identity:
             return 1.0
         return self.site_coef(sp, st)
+
+    def secondary_redox_masters(self):
+        """{species: element} of the master species of a valence state `X(n)` that is not the master species of the
+        element `X` itself (database text only): selenite where the element's master is selenate, arsenite, Co+2 ...
+        Used for coverage counting / vacuity guards only, never by an oracle relation."""
+        out = {}
+        for el, sp in self.sol_masters.items():
+            if "(" in el:
+                base = el.split("(", 1)[0]
+                if base in self.sol_masters and self.sol_masters[base] != sp:
+                    out[sp] = base
+        return out
 
     def surface_name(self, st):
         """Name of the surface (charge entity): the part of the site-type name before the underscore."""
